@@ -21,10 +21,11 @@ import (
 	"pgregory.net/rapid"
 )
 
-// Finding ids of this property (see notes/C13.md).
+// Finding ids of this property (see notes/C13.md, notes/C13.findings.json). The first two
+// defects are the ones C14 reports under the same ids (one defect, one id, one commit).
 const (
-	idRowKey        = "C13-rowkey-concat"      // composite PK whose printed parts concatenate alike: edits hit the wrong row
-	idDeletedUnique = "C13-deleted-unique"     // unique key not enforced against rows added after a same-valued row was deleted in the statement
+	idRowKey        = "C14-rowkey-concat"      // composite PK whose printed parts concatenate alike: edits hit the wrong row
+	idDeletedUnique = "C14-deleted-unique"     // unique key not enforced against rows added after a same-valued row was deleted in the statement
 	idReplaceCount  = "C13-replace-count"      // REPLACE counts one deleted row when it displaced several
 	idCINoop        = "C13-ci-noop-update"     // UPDATE to a collation-equal but different string is dropped
 	idKeylessCI     = "C13-keyless-ci-rows"    // keyless table: edits of rows that differ only in case hit the wrong row
